@@ -21,6 +21,16 @@ Two further axes (added after seeds C07-d1 / C07-d2):
   arithmetic, i.e. the eigen decomposition is degenerate; data kind ``equal``
   (constant image) on all maps of the 2x3 (thorough: 3x3) window covers single
   pixels, pairs, lines and blocks with exactly equal values.
+
+Local-background axis (added after seeds C07-e1 / C07-e2): spaces ``lb22`` (all maps over {0,1,2} of a 2x2
+window), ``lb223`` (all maps over {0,1,2,3} of the 2x2 window that use the third source symbol: three-row
+catalogs), ``lb23`` (2x3 window) and, thorough, ``lb33``: ``localbkg_width`` in {0,1,2,3} x detection catalog
+{none, given with localbkg_width 0 / 1 / 2 / 3 and with apermask_method / kron_params that differ from the
+measurement catalog's} x mask x non-finite sky x sky kind x row order.  ``local_background`` is compared with the
+definition in ``mcphot/ref/srccat.py`` (rectangular annulus, < 10 usable pixels -> 0, sigma-clipped SourceExtractor
+mode), ``segment_flux`` / ``min_value`` / ``max_value`` with the definitions on the segment pixels minus the
+reported local background; the catalog's own ``localbkg_width`` must be kept and only the documented options
+(apermask_method, kron_params) are taken from the detection catalog.
 """
 import itertools
 import math
@@ -40,13 +50,29 @@ RULE = ('every label map over {0,1,2} of each listed shape (all-zero map exclude
         'one case = one SourceCatalog, every row compared with the definitions; '
         'cases are distinct product indices; a case is non-trivial when a masked/non-finite pixel lies inside a '
         'segment, another label shares a source\'s bounding box, the image dtype is not float64 or a source has '
-        'equal principal variances (round: no major axis)')
+        'equal principal variances (round: no major axis); spaces lb*: every label map over {0,1,2} (lb223: over '
+        '{0,1,2,3} with the third source present) of the window x the tier\'s product localbkg_width x detection '
+        'catalog (none / given with each localbkg_width and with different apermask_method and kron_params) x mask x '
+        'non-finite sky x sky kind x row order (x units x dtype x footprint relation sub-lists); such a case is '
+        'non-trivial when localbkg_width > 0 and a source has a non-zero local background or fewer than 10 usable '
+        'annulus pixels')
 ASSUMPTIONS = ['numpy element access, math.fsum and float arithmetic are trusted; no numpy reduction, scipy or '
                'photutils routine is used by the reference',
                'moment-based quantities follow the documented moment image (convolved data; pixels outside the '
                'segment, masked, non-finite or negative convolved values are zero) and the 1/12 regularisation',
-               'localbkg_width = 0 (local-background subtraction needs >= 10 annulus pixels, outside this bound)',
-               'frames are at most 5x6 pixels, segments live in a 3x3 (thorough also 3x4) window; rotation-symmetric '
+               'localbkg_width = 0 in the spaces w22..w34 and sym; the spaces lb22, lb223, lb23 (thorough: lb33) '
+               'enumerate localbkg_width in {0,1,2,3}: the local background is the SourceExtractor mode estimate '
+               '(2.5 median - 1.5 mean; median when |mean - median|/std >= 0.3; mean when std = 0) of the 3-sigma '
+               '(median centred, <= 20 iterations) clipped usable pixels (inside the image, label 0, unmasked, finite) '
+               'whose centre lies in the rectangular annulus (inner rectangle 1.5 x bounding box, outer 2 x '
+               'localbkg_width larger), 0 when fewer than 10 pixels are usable, NaN for a completely masked source; '
+               'a pixel centre exactly on a rectangle side may be counted either way (all four open/closed readings '
+               'accepted); estimates within 1e-9 of a clipping bound or of the 0.3 threshold are not judged (counted)',
+               'segment_flux / min_value / max_value with a local background are judged against the definition on the '
+               'segment pixels minus the local background the catalog reports (the reported value itself is judged '
+               'by the clause local_background)',
+               'frames are at most 5x6 (local-background spaces: 5x6, 6x7, thorough 7x7) pixels, segments live in a 3x3 '
+               '(thorough also 3x4) window; rotation-symmetric '
                'sources live in n x n windows, n <= 5 (thorough: 6), in an (n+2) x (n+3) frame',
                'dtype axis: all image arguments are given in the same dtype (float32, float16, big-endian float32, '
                'int16, uint8; integer images hold truncated values and no NaN/inf); the reference evaluates the '
@@ -60,14 +86,27 @@ FRAMES = {'f46': ((4, 6), (0, 2)),      # non-square, dx != dy, window touches t
 SYM_N = {'quick': (1, 2, 3, 4, 5), 'thorough': (1, 2, 3, 4, 5, 6)}
 for _n in SYM_N['thorough']:          # rotation-symmetric windows: interior, generic (dy != dx) origin
     FRAMES[f's{_n}'] = ((_n + 2, _n + 3), (1, 2))
-LABELINGS = {'12': (1, 2), '25': (2, 5), '73': (7, 3)}      # '73' reverses the row order
+# frames of the local-background spaces (appended: the generator stream of a frame is its index in FRAME_ORDER)
+FRAME_ORDER = sorted(FRAMES)
+FRAMES.update({'b56': ((5, 6), (1, 2)),     # 2x2 window: width-1 annuli inside, wider ones cut by the border
+               'b67': ((6, 7), (2, 2)),     # 2x3 window
+               'b77': ((7, 7), (2, 2))})    # 3x3 window (thorough)
+FRAME_ORDER += ['b56', 'b67', 'b77']
+# label of the symbols 1, 2 (, 3); '73' reverses the row order ('735': rows = symbols 2, 3, 1)
+LABELINGS = {'12': (1, 2, 3), '25': (2, 5, 9), '73': (7, 3, 5)}
 MASKS = ('none', 'one', 'checker', 'label')
 SYM_MASKS = ('none', 'orb', 'one')          # 'orb': the innermost C4 orbit of the window (keeps the symmetry)
 NONFINITE = ('none', 'naninf')
 SYM_NONFINITE = ('none', 'orbnan')          # 'orbnan': NaN on the whole corner orbit of the window
 KINDS_GT = ('generic', 'tied')
 SYMKINDS = ('equal', 'orbit', 'orbitpm', 'gauss0.8', 'gauss1.3', 'gauss2.5')
-DATAKINDS = KINDS_GT + SYMKINDS             # order fixes the generator streams: append only
+DATAKINDS = KINDS_GT + SYMKINDS + ('outlier',)   # order fixes the generator streams: append only
+# local-background axes
+LBW = (0, 1, 2, 3)                          # localbkg_width of the measurement catalog
+DETW = (None, 0, 1, 2, 3)                   # no detection catalog / detection catalog built with this localbkg_width
+LB_NONFINITE = ('none', 'nansky')           # 'nansky': 'naninf' + a NaN and a -inf next to the window (sky pixels)
+LB_KINDS = ('generic', 'outlier', 'equal')  # 'outlier': every 7th pixel x 40 (clipped); 'equal': constant sky
+DET_OPTIONS = {'apermask_method': 'mask', 'kron_params': (2.0, 1.2)}     # differ from the defaults ('correct', (2.5, 1.4, 0))
 # input dtype of every image argument; 'f8' is the base case of all other products
 DTYPES = ('f8', 'f4', 'f2', '>f4', 'i2', 'u1')
 DTYPE_CLASS = {'f4': 'float<64', 'f2': 'float<64', '>f4': 'float<64', 'i2': 'int', 'u1': 'int'}
@@ -75,9 +114,56 @@ AUX = ('ebc', '---', 'e--', '-b-', '--c')                   # error / background
 
 
 def cfg(mask='none', nonfinite='none', data='generic', aux='ebc', detcat=0, units=0, lab='12', frame='f46',
-        relation=0, table=0, derived=1, dtype='f8'):
-    return {'mask': mask, 'nonfinite': nonfinite, 'data': data, 'aux': aux, 'detcat': detcat, 'units': units,
-            'lab': lab, 'frame': frame, 'relation': relation, 'table': table, 'derived': derived, 'dtype': dtype}
+        relation=0, table=0, derived=1, dtype='f8', **extra):
+    return dict({'mask': mask, 'nonfinite': nonfinite, 'data': data, 'aux': aux, 'detcat': detcat, 'units': units,
+                 'lab': lab, 'frame': frame, 'relation': relation, 'table': table, 'derived': derived,
+                 'dtype': dtype}, **extra)
+
+
+def lb_cfg(frame, lbw, detw, mask='none', nf='none', kind='generic', lab='12', **kw):
+    return cfg(mask, nf, kind, kw.pop('aux', 'ebc'), int(detw is not None), kw.pop('units', 0), lab, frame, derived=0,
+               lbw=lbw, detw=detw, **kw)
+
+
+def lb_product(frame, lbws=LBW, detws=(None, 0, 2), masks=('none', 'checker'), nfs=LB_NONFINITE,
+               kinds=('generic', 'outlier'), labs=('12', '73'), **kw):
+    return [lb_cfg(frame, w, dw, m, nf, dk, lab, **kw)
+            for w, dw, m, nf, dk, lab in itertools.product(lbws, detws, masks, nfs, kinds, labs)]
+
+
+def lb_config_list(tier, space):
+    frame = {'lb22': 'b56', 'lb223': 'b56', 'lb23': 'b67', 'lb33': 'b77'}[space]
+    th = tier == 'thorough'
+    if space == 'lb22':
+        if th:
+            out = lb_product(frame, detws=DETW, labs=tuple(LABELINGS))
+        else:   # full product on generic sky; clipped (outlier) sky x width>0 x detection catalog x mask x non-finite
+            out = lb_product(frame, kinds=('generic',))
+            out += lb_product(frame, lbws=LBW[1:], detws=(None, 0), kinds=('outlier',), labs=('12',))
+        out += lb_product(frame, lbws=LBW[1:], detws=(None, 0), masks=('none',), nfs=('none',), kinds=('equal',))
+        out += lb_product(frame, lbws=(1, 2), detws=(None, 0), masks=('none',), nfs=('nansky',), kinds=('generic',),
+                          labs=('12',), units=1)
+        out += [lb_cfg(frame, w, dw, dtype=dt) for dt in ('i2', 'f4') for w in (1, 2) for dw in (None, 0)]
+        out += lb_product(frame, lbws=(1, 2), detws=(None, 0), nfs=('nansky',), kinds=('generic',), labs=('12',),
+                          relation=1)
+        if th:
+            out += lb_product(frame, detws=(None, 0), kinds=('generic',), labs=('12',), aux='---', units=1)
+        return out
+    if space == 'lb223':
+        if th:
+            return lb_product(frame, detws=DETW, labs=tuple(LABELINGS))
+        return lb_product(frame, lbws=(1, 2), detws=(None, 0, 2), nfs=('none',), kinds=('generic',))
+    if space == 'lb23':
+        if th:
+            return lb_product(frame) + lb_product(frame, lbws=LBW[1:], detws=(None, 0), masks=('none',),
+                                                  nfs=('none',), kinds=('equal',))
+        return ([lb_cfg(frame, w, None) for w in (1, 2)]
+                + [lb_cfg(frame, w, dw, 'checker', 'nansky', 'generic', lab) for w in (1, 2) for dw in (None, 0)
+                   for lab in ('12', '73')])
+    if space == 'lb33':
+        return [lb_cfg(frame, w, dw, 'checker', 'nansky', 'outlier', lab) for w in (1, 3) for dw in (None, 0)
+                for lab in ('12', '73')]
+    raise KeyError(space)
 
 
 def dtype_product(frame, detcats=(0,), units=(0,), kinds=('generic',), auxs=AUX, dtypes=DTYPES[1:], masks=MASKS):
@@ -144,6 +230,8 @@ def config_list(tier, space):
         return full
     if space == 'w34':
         return [cfg('checker', 'naninf', frame='f56', derived=0)]
+    if space in LB_SPACES:
+        return lb_config_list(tier, space)
     if space == 'sym':
         # frame 's?' is replaced by the frame of the window size (run_unit)
         if tier != 'thorough':
@@ -157,11 +245,19 @@ def config_list(tier, space):
     raise KeyError(space)
 
 
-WINDOWS = {'w22': (2, 2), 'w23': (2, 3), 'w33': (3, 3), 'w34': (3, 4)}
+WINDOWS = {'w22': (2, 2), 'w23': (2, 3), 'w33': (3, 3), 'w34': (3, 4), 'lb22': (2, 2), 'lb223': (2, 2),
+           'lb23': (2, 3), 'lb33': (3, 3)}
+LB_SPACES = ('lb22', 'lb223', 'lb23', 'lb33')
+SYMBOLS = {'lb223': (0, 1, 2, 3)}           # default (0, 1, 2); lb223 keeps the maps that use symbol 3
 
 
 def spaces(tier):
-    return ['w22', 'w23', 'w33'] + (['w34'] if tier == 'thorough' else []) + ['sym']
+    return (['w22', 'w23', 'w33'] + (['w34'] if tier == 'thorough' else []) + ['sym', 'lb22', 'lb223', 'lb23']
+            + (['lb33'] if tier == 'thorough' else []))
+
+
+def code_in_space(space, code):
+    return any(code) and (space != 'lb223' or 3 in code)
 
 
 def c4_orbits(n):
@@ -208,7 +304,7 @@ def space_codes(space, tier):
     if space == 'sym':
         return sym_codes(tier)
     win = WINDOWS[space]
-    return ((win, code) for code in _codes(win) if any(code))
+    return ((win, code) for code in _codes(win, SYMBOLS.get(space, (0, 1, 2))) if code_in_space(space, code))
 
 
 # ------------------------------------------------------------------ inputs
@@ -242,11 +338,15 @@ def arrays(frame, datakind, seed):
     k = (frame, datakind, seed)
     if k not in _ARR:
         shape, (y0, x0) = FRAMES[frame]
-        rng = np.random.default_rng([seed, sorted(FRAMES).index(frame), DATAKINDS.index(datakind), 707])
+        rng = np.random.default_rng([seed, FRAME_ORDER.index(frame), DATAKINDS.index(datakind), 707])
         if datakind == 'generic':
             data = _generic(rng, shape)
             conv = _generic(rng, shape)
             det = _generic(rng, shape)
+        elif datakind == 'outlier':
+            # generic sky with every 7th pixel 40 times larger: 3-sigma clipping removes pixels
+            yy, xx = np.indices(shape)
+            data, conv, det = (_generic(rng, shape) * np.where((3 * yy + 5 * xx) % 7 == 0, 40.0, 1.0) for _ in range(3))
         elif datakind == 'tied':
             # few distinct values -> ties for min/max (first occurrence) and collinear / symmetric moment images
             yy, xx = np.indices(shape)
@@ -294,7 +394,7 @@ def realise(code, win, c, seed):
     dt = c.get('dtype', 'f8')
     seg = np.zeros(shape, dtype=int)
     w = np.array(code, dtype=int).reshape(wy, wx)
-    seg[y0:y0 + wy, x0:x0 + wx] = np.where(w == 1, la[0], np.where(w == 2, la[1], 0))
+    seg[y0:y0 + wy, x0:x0 + wx] = np.where(w == 1, la[0], np.where(w == 2, la[1], np.where(w == 3, la[2], 0)))
     data, conv, det, err, bkg, alt = arrays(c['frame'], c['data'], seed)
     data = data.copy()
     yy, xx = np.indices(shape)
@@ -313,9 +413,12 @@ def realise(code, win, c, seed):
         mask = seg == first
     if c['nonfinite'] != 'none' and np.dtype(dt).kind != 'f':
         raise ValueError('integer images cannot hold non-finite values')
-    if c['nonfinite'] == 'naninf':
+    if c['nonfinite'] in ('naninf', 'nansky'):
         data[y0, x0 + wx - 1] = np.nan          # fixed window positions; the label maps vary under them
         data[y0 + wy - 1, x0] = np.inf
+        if c['nonfinite'] == 'nansky':          # ... and two pixels that never carry a label
+            data[y0 - 1, x0] = np.nan
+            data[y0 + wy, x0 + wx] = -np.inf
     elif c['nonfinite'] == 'orbnan':             # the whole corner orbit of the (square) window
         oi = orbit_index(wy)
         data[y0:y0 + wy, x0:x0 + wx][oi == oi[0, 0]] = np.nan
@@ -339,8 +442,10 @@ DERIVED = ('minval_xindex', 'minval_yindex', 'maxval_xindex', 'maxval_yindex', '
 
 
 def columns(c):
-    return CORE + (DERIVED if c.get('derived', 1) else ())
-FLUX_UNIT = ('segment_flux', 'segment_fluxerr', 'min_value', 'max_value', 'background_sum', 'background_mean',
+    return CORE + (DERIVED if c.get('derived', 1) else ()) + (('local_background',) if c.get('lbw') is not None else ())
+
+
+FLUX_UNIT = ('local_background', 'segment_flux', 'segment_fluxerr', 'min_value', 'max_value', 'background_sum', 'background_mean',
              'background_centroid')
 # documented units of the remaining checked columns
 OTHER_UNIT = {'area': 'pix2', 'segment_area': 'pix2', 'covar_sigx2': 'pix2', 'covar_sigy2': 'pix2',
@@ -359,11 +464,14 @@ def make_catalog(inp, c, only=None):
     def q(a):
         return None if a is None else (a * un if c['units'] else a.copy())
     detcat = None
+    kw = {} if c.get('lbw') is None else {'localbkg_width': c['lbw']}
     if inp['det'] is not None:
-        detcat = SourceCatalog(q(inp['det']), segm, mask=inp['mask'])
+        # local-background spaces: every option of the detection catalog differs from the measurement catalog's
+        dkw = {} if c.get('detw') is None else dict(DET_OPTIONS, localbkg_width=c['detw'])
+        detcat = SourceCatalog(q(inp['det']), segm, mask=inp['mask'], **dkw)
     cat = SourceCatalog(q(inp['data']), segm, convolved_data=q(inp['conv']), error=q(inp['error']),
                         mask=None if inp['mask'] is None else inp['mask'].copy(), background=q(inp['background']),
-                        detection_cat=detcat)
+                        detection_cat=detcat, **kw)
     return cat
 
 
@@ -452,8 +560,16 @@ def check_case(acc, code, win, c, seed, sample=False):
     detrows = [srccat.ref_row(l, L['seg'], L['det'], L['mask']) for l in labels] if c['detcat'] else None
     mrows = [(detrows[i] if c['detcat'] else r)['moment'] for i, r in enumerate(rows)]
     nround = sum(is_round(m) for m in mrows)
-    nontrivial = (any(r['npix'] != r['segment_area'] or r['shared_box'] for r in rows) or c.get('dtype', 'f8') != 'f8'
-                  or nround > 0)
+    lbw = c.get('lbw')
+    lbs = None
+    if lbw is not None:
+        lbs = [srccat.local_background(l, L['seg'], L['data'], L['mask'], lbw) for l in labels]
+        nontrivial = lbw > 0 and any(max(b['nusable']) < srccat.MIN_LOCALBKG_PIXELS or any(v != 0.0 for v in b['values'])
+                                     for b in lbs)
+        lb_counters(acc, c, lbs, rows)
+    else:
+        nontrivial = (any(r['npix'] != r['segment_area'] or r['shared_box'] for r in rows)
+                      or c.get('dtype', 'f8') != 'f8' or nround > 0)
     acc.case(nontrivial=nontrivial, sample=case if sample else None)
     if nround:
         acc.counters['round_sources'] += nround
@@ -466,6 +582,8 @@ def check_case(acc, code, win, c, seed, sample=False):
         got = measure(cat, n, cols, errors)
         catlabels = np.atleast_1d(cat.labels).tolist()
         nl = cat.nlabels
+        opts = None if lbw is None else (cat.localbkg_width, cat.meta.get('localbkg_width'), cat.apermask_method,
+                                         tuple(cat.kron_params))
     except Exception as e:   # a valid catalog: every read must succeed
         acc.violation('raises', f'catalog:{type(e).__name__}{dsfx}', case, repr(e), 'no exception')
         return
@@ -476,11 +594,23 @@ def check_case(acc, code, win, c, seed, sample=False):
         acc.violation('labels', 'row-order', case, catlabels, labels)
         return
     maxdev = 0.0
+    if lbw is not None:
+        # the catalog keeps its own localbkg_width; apermask_method / kron_params are documented as taken from the
+        # detection catalog ("ignored if detection_cat is input")
+        dsite = ':detcat' if c['detcat'] else ''
+        if opts[0] != lbw or opts[1] != lbw:
+            acc.violation('options', 'localbkg_width' + dsite, case, list(opts[:2]), [lbw, lbw],
+                          'localbkg_width / meta["localbkg_width"] of the catalog differ from the value it was given')
+        want = ((DET_OPTIONS['apermask_method'], DET_OPTIONS['kron_params']) if c.get('detw') is not None
+                else ('correct', (2.5, 1.4, 0.0)))
+        if (opts[2], opts[3]) != want:
+            acc.violation('options', 'apermask_method/kron_params' + dsite, case, [opts[2], list(opts[3])],
+                          [want[0], list(want[1])])
 
     def bad(name, i, obs, exp, site=None, detail=''):
         kind = source_kind(rows[i])
         if site is None:
-            site = case_site(c, kind, mrows[i])
+            site = ('localbkg:' if lbw else '') + case_site(c, kind, mrows[i])
         elif dsfx:
             site += dsfx
         acc.violation(name, site, dict(case, label=labels[i]),
@@ -499,9 +629,17 @@ def check_case(acc, code, win, c, seed, sample=False):
         for k in ('minval', 'maxval'):
             exp[f'{k}_yindex'], exp[f'{k}_xindex'] = r[f'{k}_index']
         exp['background_centroid'] = srccat.background_at_centroid(L['background'], m['centroid'])
+        if lbw is not None and 'local_background' in got:
+            # flux / min / max: the definitions on the segment pixels minus the local background the catalog reports
+            lbo = float(got['local_background'][0][i])
+            exp['segment_flux'] = r['segment_flux'] - r['npix'] * lbo
+            exp['min_value'], exp['max_value'] = r['min_value'] - lbo, r['max_value'] - lbo
         for name in cols:
             g = got[name][0][i]
             gl = _flat(g.tolist())
+            if name == 'local_background':
+                check_local_background(acc, c, bad, i, gl[0], lbs[i], r)
+                continue
             el = _flat(exp[name])
             if name == 'area' and c['detcat']:
                 # @use_detcat returns the detection catalog's unmasked area; the docs do not say which of the two
@@ -547,8 +685,8 @@ def check_case(acc, code, win, c, seed, sample=False):
         # "a completely masked source yields NaN rather than a number"
         if r['npix'] == 0:
             for name in ('segment_flux', 'segment_fluxerr', 'area', 'min_value', 'max_value', 'background_sum',
-                         'background_mean', 'minval_index', 'maxval_index'):
-                if name == 'area' and c['detcat']:
+                         'background_mean', 'minval_index', 'maxval_index') + (('local_background',) if lbw else ()):
+                if (name == 'area' and c['detcat']) or name not in got:
                     continue
                 if not np.all(np.isnan(got[name][0][i])):
                     bad('allmasked-not-nan', i, got[name][0][i].tolist(), 'nan', site=name)
@@ -589,7 +727,51 @@ def check_case(acc, code, win, c, seed, sample=False):
     if c['table'] and not errors:
         check_table(acc, cat, got, n, case)
     if c['relation']:
-        check_relation(acc, inp, c, labels, got, rows, case, cols)
+        check_relation(acc, inp, c, labels, got, rows, case, cols, lbs[0]['footprint'] if lbs else ())
+
+
+def lb_counters(acc, c, lbs, rows):
+    """Vacuity record of the local-background class (measured on the reference)."""
+    if not c['lbw']:
+        return
+    k = acc.counters
+    few = [max(b['nusable']) < srccat.MIN_LOCALBKG_PIXELS for b in lbs]
+    nz = [any(v not in (0.0, None) for v in b['values']) for b in lbs]
+    k['lb_rows'] += len(lbs)
+    k['lb_rows_fewer_than_10_usable'] += sum(few)
+    for i in range(len(lbs)):
+        if few[i]:
+            k[f'lb_few_rows_at_position_{i}_of_{len(lbs)}'] += 1
+            if i and nz[i - 1]:
+                k['lb_few_rows_after_a_row_with_nonzero_background'] += 1
+    k['lb_rows_nonzero_background'] += sum(nz)
+    k['lb_rows_with_clipped_pixels'] += sum(b['nclipped'] > 0 for b in lbs)
+    k['lb_rows_tie_pixel_centre_on_rectangle_side'] += sum(b['tie'] for b in lbs)
+    k['lb_rows_usable_count_straddles_10_over_tie_readings'] += sum(
+        min(b['nusable']) < srccat.MIN_LOCALBKG_PIXELS <= max(b['nusable']) for b in lbs)
+    if c.get('detw') is not None:
+        k['lb_catalogs_detcat_width_' + ('equal' if c['detw'] == c['lbw'] else 'differs')] += 1
+
+
+def check_local_background(acc, c, bad, i, obs, b, r):
+    """Clause local_background: the reported value is one of the admissible readings of the definition."""
+    dsite = ':detcat' if c['detcat'] else ''
+    if r['npix'] == 0:
+        if not math.isnan(obs):
+            bad('local_background', i, obs, 'nan', site='allmasked' + dsite)
+        return
+    if not c['lbw']:
+        if obs != 0.0:
+            bad('local_background', i, obs, 0.0, site='width0' + dsite)
+        return
+    if any(v is None for v in b['values']):
+        acc.counters['lb_rows_not_judged_clip_or_threshold_tie'] += 1
+        return
+    if not any(close(obs, v, TOL) for v in b['values']):
+        few = max(b['nusable']) < srccat.MIN_LOCALBKG_PIXELS
+        bad('local_background', i, obs, b['values'] if len(b['values']) > 1 else b['values'][0],
+            site=('fewer-than-10-usable' if few else 'estimate') + dsite,
+            detail=f'usable annulus pixels {b["nusable"]}, clipped {b["nclipped"]}')
 
 
 TABLE_COLS = ['label', 'xcentroid', 'ycentroid', 'bbox_xmin', 'bbox_xmax', 'bbox_ymin', 'bbox_ymax', 'area',
@@ -617,12 +799,14 @@ def check_table(acc, cat, got, n, case):
 REL_SKIP = ('background_centroid',)   # its footprint includes background pixels around the centroid
 
 
-def check_relation(acc, inp, c, labels, got, rows, case, cols):
+def check_relation(acc, inp, c, labels, got, rows, case, cols, annulus=()):
     """Footprint: replace every pixel NOT carrying the first label L (data, convolved data, error, background,
     detection image; finite garbage plus a NaN and an inf) -> the row of L must be bit-identical.  (Every source
     is the first label of some enumerated map, so one altered catalog per case suffices.)"""
     i, l = 0, labels[0]
     out = inp['seg'] != l
+    for (y, x) in annulus:      # localbkg_width > 0: the annulus of L (every tie reading) belongs to its footprint
+        out[y, x] = False
     alt = dict(inp)
     a = inp['alt']
     d2 = np.where(out, a[0], inp['data'])
@@ -649,21 +833,22 @@ def check_relation(acc, inp, c, labels, got, rows, case, cols):
             continue
         x, y = got[name][0][i], got2[name][0][i]
         if not np.array_equal(x, y, equal_nan=True):
-            acc.violation('footprint', name + (':detcat' if c['detcat'] else '')
+            acc.violation('footprint', name + (':localbkg' if c.get('lbw') else '') + (':detcat' if c['detcat'] else '')
                           + ('' if c.get('dtype', 'f8') == 'f8' else ':dtype'), dict(case, label=l),
                           np.asarray(y).tolist(), np.asarray(x).tolist(),
                           f'row of label {l} changed when only pixels not carrying label {l} were changed')
 
 
 # ------------------------------------------------------------------ plan / run
-def _codes(win):
-    return itertools.product((0, 1, 2), repeat=win[0] * win[1])
+def _codes(win, symbols=(0, 1, 2)):
+    return itertools.product(symbols, repeat=win[0] * win[1])
 
 
 def plan(tier, seed):
     units = []
     for sp in spaces(tier):
-        ncodes = sum(1 for _ in space_codes(sp, tier)) if sp == 'sym' else 3 ** (WINDOWS[sp][0] * WINDOWS[sp][1])
+        ncodes = (sum(1 for _ in space_codes(sp, tier)) if sp == 'sym'
+                  else len(SYMBOLS.get(sp, (0, 1, 2))) ** (WINDOWS[sp][0] * WINDOWS[sp][1]))
         ncfg = len(config_list(tier, sp))
         nsh = max(1, min(256, (ncodes * ncfg) // 1500))
         for j in range(nsh):
@@ -676,9 +861,10 @@ def run_unit(unit, tier, seed):
     sp = unit['space']
     cfgs = config_list(tier, sp)
     # (shards of the window spaces are taken on the index over ALL codes, the all-zero map included, as before)
-    codes = sym_codes(tier) if sp == 'sym' else ((WINDOWS[sp], code) for code in _codes(WINDOWS[sp]))
+    codes = (sym_codes(tier) if sp == 'sym'
+             else ((WINDOWS[sp], code) for code in _codes(WINDOWS[sp], SYMBOLS.get(sp, (0, 1, 2)))))
     for i, (win, code) in enumerate(codes):
-        if i % unit['nshards'] != unit['shard'] or not any(code):
+        if i % unit['nshards'] != unit['shard'] or not code_in_space(sp, code):
             continue
         for j, c in enumerate(cfgs):
             if c['frame'] == 's?':
@@ -705,6 +891,11 @@ def describe(tier, seed):
         sp[s] = {'label_maps': ncodes, 'configurations': ncfg, 'catalogs': ncodes * ncfg,
                  'dtype_configurations': sum(1 for c in cl if c['dtype'] != 'f8'),
                  'data_kinds': sorted({c['data'] for c in cl}, key=DATAKINDS.index)}
+        if s in LB_SPACES:
+            sp[s]['label_symbols'] = list(SYMBOLS.get(s, (0, 1, 2)))
+            sp[s]['localbkg_width'] = sorted({c['lbw'] for c in cl})
+            sp[s]['detection_catalog_localbkg_width'] = sorted({str(c['detw']) for c in cl})
+            sp[s]['width_x_detcat_pairs'] = len({(c['lbw'], c['detw']) for c in cl})
         if s == 'sym':
             ns = SYM_N['thorough' if tier == 'thorough' else 'quick']
             sp[s]['windows'] = [[n, n] for n in ns]
@@ -718,7 +909,12 @@ def describe(tier, seed):
                          'labelings': {k: list(v) for k, v in LABELINGS.items()}, 'mask': list(MASKS),
                          'mask(sym)': list(SYM_MASKS), 'nonfinite': list(NONFINITE), 'nonfinite(sym)': list(SYM_NONFINITE),
                          'data': list(DATAKINDS), 'aux(error,background,convolved)': list(AUX),
-                         'detcat': [0, 1], 'units': [0, 1], 'dtype(all image arguments)': list(DTYPES)},
+                         'detcat': [0, 1], 'units': [0, 1], 'dtype(all image arguments)': list(DTYPES),
+                         'localbkg_width(lb spaces)': list(LBW),
+                         'detection catalog(lb spaces)': ['none'] + [f'localbkg_width={w}, apermask_method=mask, '
+                                                                     'kron_params=(2.0, 1.2)' for w in DETW[1:]],
+                         'nonfinite(lb spaces)': list(LB_NONFINITE), 'sky kind(lb spaces)': list(LB_KINDS)},
             'spaces': sp, 'catalogs_total': total,
-            'checked_columns': list(CORE + DERIVED) + ['bbox', 'slices', 'data_ma.mask', 'error_ma.mask', 'labels'],
+            'checked_columns': list(CORE + DERIVED) + ['local_background (lb spaces)', 'localbkg_width / meta / '
+                                                       'apermask_method / kron_params (lb spaces)', 'bbox', 'slices', 'data_ma.mask', 'error_ma.mask', 'labels'],
             'tolerance': {'default': TOL, 'eccentricity/ellipticity/elongation': TOL_SQRT, 'footprint relation': 0}}
